@@ -438,4 +438,11 @@ example : handshakeValid ([0x54, 0x52, 0x54, 0x50] ++ [0x48, 0x4F, 0x54, 0x4D] +
     handshakeValid ([0x54, 0x52, 0x54, 0x51] ++ [0x48, 0x4F, 0x54, 0x4C] ++ [0, 1, 0, 2]) = false ∧
     handshakeValid (handshakeBytes 7 9) = true := by decide
 
+/-- `performHandshake` makes exactly these calls, in this order: one exact read, the size check (`Write`),
+    `Valid`, and — after it — the only write to the peer, which is `handshakeResponse`.  (The model's
+    `Session.run` answers nothing before the gate: `unauthenticated_is_inert`.) -/
+theorem generated_handshake_calls :
+    Generated.handshakeCalls =
+      ["io.ReadFull(rw, buf)", "h.Write(buf[:n])", "h.Valid()", "rw.Write(handshakeResponse[:])"] := by decide
+
 end Mobius.C04
